@@ -850,6 +850,52 @@ func c03Fixed(c *core.Ctx, run func(i int64, p *lang.Program, tag string)) int64
 			i++
 		}
 	}
+	// named and unnamed blocks of a few types spread over a program with hundreds to thousands of constants
+	// (constant numbers beyond one byte, beyond 240, beyond 2287), at toplevel and as children of one parent
+	for k := 0; k < 40; k++ {
+		if c.Mine(i) {
+			gap := []int{30, 120, 250, 260, 511, 513, 1100, 2300}[k%8] // new constants between two named blocks
+			nblk := 3 + k%4
+			asChildren := k%2 == 1
+			var stmts []*lang.Stmt
+			cn := 0
+			for b := 0; b < nblk; b++ {
+				filler := &lang.Stmt{Kind: lang.SDef, Name: "filler", BlockName: lang.StrLit(fmt.Sprintf("f%d", b))}
+				for f := 0; f < gap/2; f++ {
+					cn++
+					filler.Body = append(filler.Body, &lang.Stmt{Kind: lang.SExpr, E: lang.Assign(fmt.Sprintf("k%d", cn), lang.Lit(lang.IntLit(100000+cn)))})
+				}
+				named := &lang.Stmt{Kind: lang.SDef, Name: []string{"t", "u"}[b%2], BlockName: lang.StrLit(fmt.Sprintf("name%d", b))}
+				named.Body = append(named.Body, &lang.Stmt{Kind: lang.SExpr, E: lang.Assign("id", lang.Lit(lang.IntLit(b)))},
+					&lang.Stmt{Kind: lang.SDef, Name: "t", BlockName: lang.StrLit(fmt.Sprintf("inner%d", b)), Body: []*lang.Stmt{{Kind: lang.SExpr, E: lang.Assign("in", lang.Lit(lang.IntLit(b)))}}},
+					&lang.Stmt{Kind: lang.SDef, Name: "t", Body: []*lang.Stmt{{Kind: lang.SExpr, E: lang.Assign("anon", lang.Lit(lang.IntLit(b)))}}})
+				stmts = append(stmts, filler, named)
+			}
+			prog := &lang.Program{Stmts: stmts}
+			if asChildren {
+				prog = &lang.Program{Stmts: []*lang.Stmt{{Kind: lang.SDef, Name: "parent", BlockName: lang.StrLit("p"), Body: stmts}}}
+			}
+			run(i, prog, "named_blocks_among_many_constants")
+		}
+		i++
+	}
+	// two named children of one type (and a third of another type with the first one's name) with 0..1200 new
+	// constants between them: every distance, so every pair of constant numbers up to the two-byte operand class
+	for n := 0; n <= 1200; n++ {
+		if c.Mine(i) {
+			asg := func(k string, v int) *lang.Stmt { return &lang.Stmt{Kind: lang.SExpr, E: lang.Assign(k, lang.Lit(lang.IntLit(v)))} }
+			top := &lang.Stmt{Kind: lang.SDef, Name: "top"}
+			top.Body = append(top.Body, &lang.Stmt{Kind: lang.SDef, Name: "t", BlockName: lang.StrLit("first"), Body: []*lang.Stmt{asg("a", 1)}})
+			for f := 0; f < n; f++ {
+				top.Body = append(top.Body, asg("z", 100000+f))
+			}
+			top.Body = append(top.Body, &lang.Stmt{Kind: lang.SDef, Name: "t", BlockName: lang.StrLit("second"), Body: []*lang.Stmt{asg("b", 2)}},
+				&lang.Stmt{Kind: lang.SDef, Name: "u", BlockName: lang.StrLit("first"), Body: []*lang.Stmt{asg("c", 3)}},
+				&lang.Stmt{Kind: lang.SDef, Name: "t", Body: []*lang.Stmt{asg("d", 4)}})
+			run(i, &lang.Program{Stmts: []*lang.Stmt{top}}, "two_named_children_n_constants_apart")
+		}
+		i++
+	}
 	return i
 }
 
